@@ -117,7 +117,7 @@ func hookInstance(c ctor, n int, h *hooker) interface{} {
 			return nil
 		}
 		any = any || hooked
-		if o := vh.GuardTimeout(2*time.Second, func() { m.Call(args) }); !o.OK() {
+		if o := vh.GuardTimeout(hangLimit, func() { m.Call(args) }); !o.OK() {
 			return nil
 		}
 	}
@@ -280,7 +280,7 @@ func traversalHooks(env *vh.Env, rep *vh.Report, facts lockFacts) {
 					meth := reflect.ValueOf(obj).MethodByName(m)
 					var text, why string
 					count := -1
-					out := vh.GuardTimeout(3*time.Second, func() {
+					out := vh.GuardTimeout(hangLimit, func() {
 						r := meth.Call(nil)[0]
 						if r.Kind() == reflect.Interface && !r.IsNil() && r.Elem().MethodByName("HasMoreElements").IsValid() ||
 							r.Kind() == reflect.Ptr && !r.IsNil() && r.MethodByName("HasMoreElements").IsValid() {
@@ -336,9 +336,9 @@ func traversalHooks(env *vh.Env, rep *vh.Report, facts lockFacts) {
 // oracleTexts: what M returns on the state before and after the mutator, on fresh instances with inert hooks
 func oracleTexts(c ctor, n int, m string, mu mutation) (before, after string) {
 	o1 := hookInstance(c, n, nil)
-	vh.GuardTimeout(2*time.Second, func() { before, _, _ = resultText(reflect.ValueOf(o1).MethodByName(m).Call(nil)[0], n+2) })
+	vh.GuardTimeout(hangLimit, func() { before, _, _ = resultText(reflect.ValueOf(o1).MethodByName(m).Call(nil)[0], n+2) })
 	o2 := hookInstance(c, n, nil)
-	vh.GuardTimeout(2*time.Second, func() {
+	vh.GuardTimeout(hangLimit, func() {
 		mu.do(o2)
 		after, _, _ = resultText(reflect.ValueOf(o2).MethodByName(m).Call(nil)[0], n+2)
 	})
@@ -355,7 +355,7 @@ func enumerationDrain(rep *vh.Report, c ctor, m string, n int, muts []mutation) 
 		obj := hookInstance(c, n, nil)
 		var xs []string
 		why := ""
-		out := vh.GuardTimeout(3*time.Second, func() {
+		out := vh.GuardTimeout(hangLimit, func() {
 			en := reflect.ValueOf(obj).MethodByName(m).Call(nil)[0]
 			if en.Kind() == reflect.Interface {
 				en = en.Elem()
